@@ -727,7 +727,7 @@ def smoke_C04():
 
 # ======================================================================================================== C05
 
-RULE_C05 = ('C05: (a) "plain" cases: k in 1..4 statements drawn from Grammar.plain_stmt() (queries with CTE/set operation/'
+RULE_C05 = ('C05: (0) "big" cases: scripts of 5 000 / 70 000 / 140 000 characters (thorough: up to 1.1 M) made of known one-statement units in which every line end lies inside a string, quoted name, dollar-quoted body or comment, given as str and as a text stream: split() must return exactly the units.  (a) "plain" cases: k in 1..4 statements drawn from Grammar.plain_stmt() (queries with CTE/set operation/'
             'subquery/CASE, insert, update, delete, DDL; depth 1..3; keyword case varied), each rendered with random inner '
             'separators (blank, tab, LF, CRLF, block and line comments), joined by ";" with a separator before it from '
             "{'', ' ', LF, CRLF, '-- c' + LF, '/* c */'} and after it from the same set plus blank lines; the final ';' is "
@@ -794,6 +794,9 @@ _TEMPLATES_VALUE = [
     ('update t set c = ', '\nwhere k = 1;\ndelete from t;'),
     ('select 1;', ' ;select 2;'),
     ('create function f() returns int as ', ' language sql; select 2;'),
+    # a LATER occurrence of every closer, inside a string literal of a following statement (a region rule that looks
+    # past its own terminator, e.g. for nested openers, would run on to it)
+    ('select 1; select a, ', " from t; select '*/ $$ $t$ \" ` )' from u; select 2;"),
 ]
 _TEMPLATES_COMMENT = [
     ('select 1; select a ', ' from t; select 2;'),
@@ -802,6 +805,7 @@ _TEMPLATES_COMMENT = [
     ('update t set c = 1 ', 'where k = 1;\ndelete from t;'),
     ('select 1;', 'select 2;'),
     ('', 'select 1; select 2'),
+    ('select 1; select a ', " from t; select '*/ $$ $t$ \" ` )' from u; select 2;"),
 ]
 
 _ODD_BODIES = [
@@ -809,7 +813,7 @@ _ODD_BODIES = [
     '";"', '""', '"";""', '`', '`;`', '``', '``;``', '$$', '$$;$$', '$t$', '$t$;$t$', '$x$;$x$', '$', '$;', '/*', '/*;', '/* ; */',
     '*/', ';*/', '*', '--', '--;', '-- ;\n', '#', '# ;', '(', '(;', ')', ';)', '(;)', 'é;業', '\x00;', ';\x00', '\ud800;',
     'END;', 'end; end', 'case when;', 'begin;', 'begin; end', 'declare;', 'create;', 'if; end if', 'go;', 'GO;', '\\', '\\;', "\\'",
-    '\\";', ';+', '+;', 'x',
+    '\\";', ';+', '+;', 'x', '/* x', '/* /* x', "/* '", '/*/', '$t$ $$', '$$ $t', '-- /*', '(', '((',
 ]
 _PAREN_BODIES = [
     ';', 'a;b', '1; 2', ' ; ', ';;', "';'", "a; 'b;' ; c", '/* ; */ ;', '(;)', '(a;(b;c))', 'select 1; select 2', 'a, b; c[1]',
@@ -861,6 +865,22 @@ def _stmt_texts(text):
 def oracle_C05(case):
     sqlparse = _lib()[0]
     kind = case[0]
+    if kind == 'big':
+        # a long script of known one-statement units, as str and as a text stream (readers that work block-wise must not
+        # cut a string, comment or dollar-quoted body)
+        import io
+        _, n, form = case
+        text, units = domain.big_script(n, salt=n % 7)
+        try:
+            pieces = sqlparse.split(io.StringIO(text) if form == 'stream' else text)
+        except Exception as e:   # noqa: BLE001
+            return None if _is_parse_error(e) else _exc(e, _clip(text), 'split')
+        if pieces != units:
+            i = next((j for j, (a, b) in enumerate(zip(pieces, units)) if a != b), min(len(pieces), len(units)))
+            return _fail('long-script-statements-differ', ('big', n, form),
+                         '%d pieces; piece %d = %s' % (len(pieces), i, _clip(repr(pieces[i:i + 1]), 200)),
+                         '%d pieces; piece %d = %s' % (len(units), i, _clip(repr(units[i:i + 1]), 200)))
+        return None
     if kind == 'plain':
         _, script, cores = case
         k = len(cores)
@@ -923,6 +943,9 @@ def oracle_C05(case):
 
 def cases_C05(tier, seed):
     quick = tier == 'quick'
+    for n in ((5000, 70000, 140000) if quick else (5000, 9000, 17000, 33000, 70000, 140000, 300000, 1100000)):
+        for form in ('str', 'stream'):
+            yield ('big', n, form)
     # region cases: hand-picked bodies x templates (exhaustive part)
     for rk, (op, cl, value_like) in REGION_KINDS.items():
         templates = _TEMPLATES_VALUE if value_like else _TEMPLATES_COMMENT
@@ -1209,7 +1232,9 @@ C14_KINDS = {
     'slc_crlf': ('--', '\r\n', ('Comment', 'Single')),
 }
 C14_LEFT = ('', ' ', '\t', '\n', '(', ')', ',', ';', '=')
-C14_RIGHT_REGION = ('', ' ', '\t', '\n', '(', ')', ',', ';', '=')
+# (the last context repeats every closer later in the text, inside a string literal: a region rule that looks past its own
+# terminator - nested comments, greedy bodies - runs on to it)
+C14_RIGHT_REGION = ('', ' ', '\t', '\n', '(', ')', ',', ';', '=', " x '*/ $$ $t$ \" ` )' y")
 C14_RIGHT_WORD = ('', ' ', '\t', '\n', ')', ',', ';', '=', '+')
 C14_CASINGS = ('upper', 'lower', 'capitalised', 'alternating')
 C14_NON_WORDS = ['foo', 'bar', 'tbl', 'col1', 'x1', 'naïve', '業者', 'my_col', '_x', 'a1$', 'x#y', 'q', 'zz', 'selects', 'fromage', 'ends',
